@@ -39,11 +39,12 @@ def run(ctx):
             afw, abw = int(rng.integers(1, 601)), int(rng.integers(1, 601))
             stamps = [gen_files.stamp_str(base + (afw + abw + 5) * f) for f in range(n)]
             d = os.path.join(tmp, f"silixa{c}")
-            gen_files.silixa_files(d, n, 5, stamps, afw, abw, tz="+01:00")
+            tzs, tzo = [("+01:00", 3600), ("+05:30", 19800), ("-03:30", -12600), ("+05:45", 20700), ("+09:30", 34200)][c % 5]   # incl. offsets that are not whole hours
+            gen_files.silixa_files(d, n, 5, stamps, afw, abw, tz=tzs)
             ref = {}
             for host in hosts:
                 for tzout in ("UTC", "Europe/Amsterdam"):
-                    rec = {"reader": "silixa", "stamps": stamps, "acq": [afw, abw], "host_tz": host, "timezone_netcdf": tzout}
+                    rec = {"reader": "silixa", "stamps": stamps, "stamp_offset": tzs, "acq": [afw, abw], "host_tz": host, "timezone_netcdf": tzout}
                     ctx.case(("silixa", c, host, tzout), sample=rec)
                     o = worker("silixa", d, {"timezone_netcdf": tzout}, tz=host)
                     if "error" in o:
@@ -53,8 +54,8 @@ def run(ctx):
                         if secs(o["timeend"][f], o["timestart"][f]) != afw + abw or secs(o["time"][f], o["timestart"][f]) != afw:
                             ctx.violation("silixa:interval-wrong", f"timestart/time/timeend {o['timestart'][f]} {o['time'][f]} {o['timeend'][f]} for acquisition times {afw}+{abw}", rec)
                             break
-                    if tzout == "UTC" and o["time"] != [gen_files.stamp_str(base + (afw + abw + 5) * f - 3600) for f in range(n)]:
-                        ctx.violation("silixa:instant-wrong", f"time {o['time']} is not the stamp read in its own zone (+01:00)", rec)
+                    if tzout == "UTC" and o["time"] != [gen_files.stamp_str(base + (afw + abw + 5) * f - tzo) for f in range(n)]:
+                        ctx.violation("silixa:instant-wrong", f"time {o['time']} is not the stamp read in its own zone ({tzs})", rec)
                     key = (tzout,)
                     val = (o["time"], o["timestart"], o["timeend"])
                     if key in ref and ref[key] != val:
